@@ -1130,6 +1130,7 @@ def run_history(w, h, queries):
         for given, fam, keys, leaf, inst in call_leaves(c):
             cv = leaf_expected(fam, leaf, inst)
             leaf["id"] = id_of(cv) if cv is not None else len(ids) + 1000000    # invalid leaf: never readable
+            leaf["dk"], leaf["shapes"] = leaf_shapes(fam, leaf, inst)
     state = {}        # abstract map of the property: normalised key -> value id
     trace, fails = [], []
     roots_used = set()
@@ -1218,8 +1219,29 @@ def c_key(kind, k):
     return c_z(k)
 
 
+SHAPE_ORDER = {"adf11": ("DTable2", ["ne", "te", "rates"]), "pec": ("DTable2", ["ne", "te", "rate"]),
+               "pectcx": ("DTable3", ["ne", "te", "td", "rate"]),
+               "bcx": ("DPairs", ["eb", "qeb", "ti", "qti", "ni", "qni", "z", "qz", "b", "qb"]),
+               "beam": ("DBeam", ["e", "n", "t", "sen", "st"])}
+
+
+def leaf_shapes(fam, leaf, inst):
+    """the shapes numpy gives the arrays of this leaf, in the order the update function converts them: what the
+    MODEL decides validity from (the generator's own 'bad' flag is used by the search only)"""
+    kind = DATAKIND[fam]
+    if kind == "wvl":
+        return "DScalar", []
+    give = gen_leaf(kind, leaf, inst)[0]
+    sh = lambda x: list(np.array(x, np.float64).shape)      # noqa: E731
+    if inst == "adf15tcx":
+        # install.py:_thermalcx_adf15_2dto3d_converter: td = [0.01, 10000], rate (len(ne), len(te), 2)
+        return "DTable3", [sh(give["ne"]), sh(give["te"]), [2], [len(give["ne"]), len(give["te"]), 2]]
+    dk, order = SHAPE_ORDER[kind]
+    return dk, [sh(give[k]) for k in order]
+
+
 def c_leaf(leaf):
-    return "(T %s %d)" % ("true" if leaf["bad"] is None else "false", leaf["id"])
+    return "(T %s [%s] %d)" % (leaf["dk"], "; ".join("[" + "; ".join(str(x) for x in s) + "]" for s in leaf["shapes"]), leaf["id"])
 
 
 def c_tree(tree, levels):
